@@ -1,6 +1,6 @@
-(* C09/ProofsMean.v — _mean_numpy / mean: clipped 3x3 nanmean, excluded values
-   pass through, passes = iteration. *)
-Require Import Base.Prelude C09.Model C09.Proofs.
+(* C09/ProofsMean.v — _mean_numpy / mean, for EVERY arithmetic instance: the nanmean loop over the clipped
+   3x3 block, excluded values pass through, passes = iteration; exact instance: the loop is sum / count. *)
+Require Import Base.Prelude C09.Arith C09.Model C09.Proofs.
 From Coq Require Import QArith.
 Open Scope Z_scope.
 
@@ -65,10 +65,10 @@ Lemma concat_singletons {A B} (f : A -> B) l : map f l = concat (map (fun a => [
 Proof. induction l as [|a l IH]; cbn; [reflexivity|]. now rewrite IH. Qed.
 
 (* ---- the property's neighbourhood: the cells of the 3x3 block around (y, x) that exist ---- *)
-Definition clipped3x3 (data : grid xq) (rows cols y x : Z) : list xq :=
+Definition clipped3x3 {X} (d : X) (data : grid X) (rows cols y x : Z) : list X :=
   concat (map (fun yy => if (0 <=? yy) && (yy <? rows)
                          then concat (map (fun xx => if (0 <=? xx) && (xx <? cols)
-                                                     then [get2 None data yy xx] else [])
+                                                     then [get2 d data yy xx] else [])
                                           (zrange (x - 1) (x + 2)))
                          else [])
               (zrange (y - 1) (y + 2))).
@@ -76,59 +76,59 @@ Definition clipped3x3 (data : grid xq) (rows cols y x : Z) : list xq :=
 Definition nanmean_list (v : list Q) : xq :=
   match v with [] => None | _ => Some (qsum v / inject_Z (lenZ v))%Q end.
 
-Definition excluded (excludes : list xq) (c : xq) : bool := existsb (fun ex => equal_numpy c ex) excludes.
-
 Section MeanSpec.
-  Variables (rows cols : Z) (excludes : list xq).
+  Variable A : Arith.
+  Variables (rows cols : Z) (excludes : list (T64 A)).
   Hypothesis Hrows : 0 < rows.
 
-  Lemma kernel_data_eq data y x :
+  Definition excluded (c : T64 A) : bool := existsb (fun ex => equal_numpy A c ex) excludes.
+
+  Lemma kernel_data_eq (data : grid (T64 A)) y x :
     wf data rows cols -> 0 <= y < rows -> 0 <= x < cols ->
     concat (map (fun r => slice r (Z.max (x - 1) 0) (Z.min (x + 2) cols))
                 (slice data (Z.max (y - 1) 0) (Z.min (y + 2) rows))) =
-    clipped3x3 data rows cols y x.
+    clipped3x3 (dnan A) data rows cols y x.
   Proof.
-    intros [L C] Hy Hx. unfold clipped3x3. unfold xq in *.
+    intros [L C] Hy Hx. unfold clipped3x3.
     rewrite (slice_spec [] data) by lia.
     rewrite map_map.
     replace (y + 2) with (y - 1 + Z.of_nat 3) by lia.
     rewrite <- (clip_range (fun yy => concat (map (fun xx => if (0 <=? xx) && (xx <? cols)
-                                  then [get2 None data yy xx] else []) (zrange (x - 1) (x + 2)))) rows 3 (y - 1)).
+                                  then [get2 (dnan A) data yy xx] else []) (zrange (x - 1) (x + 2)))) rows 3 (y - 1)).
     f_equal. apply map_ext_in. intros yy Hyy. apply zrange_In in Hyy.
-    rewrite (slice_spec None) by (rewrite ?C; lia).
+    rewrite (slice_spec (dnan A)) by (rewrite ?C; lia).
     replace (x + 2) with (x - 1 + Z.of_nat 3) by lia.
-    rewrite <- (clip_range (fun xx => [get2 None data yy xx]) cols 3 (x - 1)).
+    rewrite <- (clip_range (fun xx => [get2 (dnan A) data yy xx]) cols 3 (x - 1)).
     unfold get2. apply concat_singletons.
   Qed.
 
-  (* one cell of one pass *)
+  (* one cell of one pass: Numba's nanmean loop (float64 accumulator, count, one division) over the block *)
   Lemma mean_cell_spec data y x :
     wf data rows cols -> 0 <= y < rows -> 0 <= x < cols ->
-    mean_cell data excludes rows cols y x =
-    if excluded excludes (get2 None data y x) then get2 None data y x
-    else nanmean_list (somes (clipped3x3 data rows cols y x)).
+    mean_cell A data excludes rows cols y x =
+    if excluded (get2 (dnan A) data y x) then get2 (dnan A) data y x
+    else nanmean_gen A (disnan A) (fun v => v) (clipped3x3 (dnan A) data rows cols y x).
   Proof.
     intros Hd Hy Hx. unfold mean_cell, excluded. cbv zeta.
     destruct (existsb _ excludes); [reflexivity|].
-    unfold calc_mean, wvals. rewrite kernel_data_eq by assumption.
-    unfold nanmean_list. destruct (somes (clipped3x3 data rows cols y x)); reflexivity.
+    rewrite kernel_data_eq by assumption. reflexivity.
   Qed.
 
   Lemma mean_numpy_tabulate data :
     wf data rows cols ->
-    mean_numpy data excludes = tabulate (fun y x => mean_cell data excludes rows cols y x) rows cols.
+    mean_numpy A data excludes = tabulate (fun y x => mean_cell A data excludes rows cols y x) rows cols.
   Proof.
     intros [L C]. unfold mean_numpy, nrows, ncols. rewrite L, C by lia. reflexivity.
   Qed.
 
-  Lemma mean_numpy_wf data : 0 <= cols -> wf data rows cols -> wf (mean_numpy data excludes) rows cols.
+  Lemma mean_numpy_wf data : 0 <= cols -> wf data rows cols -> wf (mean_numpy A data excludes) rows cols.
   Proof. intros Hc Hd. rewrite mean_numpy_tabulate by assumption. apply wf_tabulate; lia. Qed.
 
   Lemma mean_numpy_spec data y x :
     wf data rows cols -> 0 <= y < rows -> 0 <= x < cols ->
-    get2 None (mean_numpy data excludes) y x =
-    if excluded excludes (get2 None data y x) then get2 None data y x
-    else nanmean_list (somes (clipped3x3 data rows cols y x)).
+    get2 (dnan A) (mean_numpy A data excludes) y x =
+    if excluded (get2 (dnan A) data y x) then get2 (dnan A) data y x
+    else nanmean_gen A (disnan A) (fun v => v) (clipped3x3 (dnan A) data rows cols y x).
   Proof.
     intros Hd Hy Hx. rewrite mean_numpy_tabulate by assumption.
     rewrite get2_tabulate by assumption. now apply mean_cell_spec.
@@ -142,7 +142,7 @@ Section MeanSpec.
     rewrite IH. reflexivity.
   Qed.
 
-  Lemma fold_ignore {S A} (f : S -> S) (l : list A) : forall x,
+  Lemma fold_ignore {S B} (f : S -> S) (l : list B) : forall x,
     fold_left (fun out _ => f out) l x = Nat.iter (length l) f x.
   Proof.
     induction l as [|a l IH]; intros x; [reflexivity|].
@@ -150,27 +150,56 @@ Section MeanSpec.
   Qed.
 
   Lemma mean_passes data (n : nat) :
-    mean data (Z.of_nat n) excludes = Nat.iter n (fun d => mean_numpy d excludes) data.
+    mean A data (Z.of_nat n) excludes = Nat.iter n (fun d => mean_numpy A d excludes) data.
   Proof.
     unfold mean. rewrite fold_ignore. unfold zrange. rewrite ziota_length.
     f_equal. lia.
   Qed.
 
-  Lemma mean_passes_nonpos data p : p <= 0 -> mean data p excludes = data.
+  Lemma mean_passes_nonpos data p : p <= 0 -> mean A data p excludes = data.
   Proof. intros. unfold mean. rewrite zrange_nil by lia. reflexivity. Qed.
 
   (* excluded values pass through untouched, for any number of passes *)
   Lemma mean_excluded_passthrough data y x (n : nat) :
     0 <= cols -> wf data rows cols -> 0 <= y < rows -> 0 <= x < cols ->
-    excluded excludes (get2 None data y x) = true ->
-    wf (mean data (Z.of_nat n) excludes) rows cols /\
-    get2 None (mean data (Z.of_nat n) excludes) y x = get2 None data y x.
+    excluded (get2 (dnan A) data y x) = true ->
+    wf (mean A data (Z.of_nat n) excludes) rows cols /\
+    get2 (dnan A) (mean A data (Z.of_nat n) excludes) y x = get2 (dnan A) data y x.
   Proof.
     intros Hc Hd Hy Hx He. rewrite mean_passes.
     induction n as [|n [W G]]; [split; [assumption|reflexivity]|].
-    change (Nat.iter (S n) (fun d => mean_numpy d excludes) data)
-      with (mean_numpy (Nat.iter n (fun d => mean_numpy d excludes) data) excludes).
+    change (Nat.iter (S n) (fun d => mean_numpy A d excludes) data)
+      with (mean_numpy A (Nat.iter n (fun d => mean_numpy A d excludes) data) excludes).
     split; [now apply mean_numpy_wf|].
     rewrite mean_numpy_spec by assumption. rewrite G, He. reflexivity.
   Qed.
 End MeanSpec.
+
+(* ---- exact instance: the nanmean loop is sum / count of the non-NaN values ---- *)
+Lemma mean_acc_exact (flat : list xq) : forall c n,
+  fold_left (fun st v => if oisnan v then st else (olift2 Qplus (fst st) v, snd st + 1)) flat (Some c, n) =
+  (Some (fold_left Qplus (somes flat) c), n + lenZ (somes flat)).
+Proof.
+  induction flat as [|[q|] flat IH]; intros c n; cbn [fold_left somes oisnan].
+  - f_equal. unfold lenZ; cbn; lia.
+  - cbn [fst snd olift2]. rewrite IH. f_equal. rewrite lenZ_cons. lia.
+  - apply IH.
+Qed.
+
+Lemma Qeq_bool_inject_nonzero n : n <> 0 -> Qeq_bool (inject_Z n) 0 = false.
+Proof.
+  intros H. destruct (Qeq_bool (inject_Z n) 0) eqn:E; [|reflexivity].
+  apply Qeq_bool_eq in E. unfold Qeq in E. cbn in E. lia.
+Qed.
+
+Lemma nanmean_gen_exact qs (flat : list xq) :
+  nanmean_gen (ExactArith qs) oisnan (fun v => v) flat = nanmean_list (somes flat).
+Proof.
+  unfold nanmean_gen, mean_acc. cbn [dadd dofZ ddiv ExactArith].
+  change (inject_Z 0) with 0%Q.
+  rewrite mean_acc_exact. cbn [fst snd]. unfold nanmean_list, qsum.
+  destruct (somes flat) as [|q l].
+  - reflexivity.
+  - cbn [odiv]. rewrite Qeq_bool_inject_nonzero by (rewrite lenZ_cons; pose proof (lenZ_nonneg l); lia).
+    reflexivity.
+Qed.
